@@ -29,6 +29,19 @@ def _elem(e: ast.AST, name: str) -> Optional[int]:
     return None
 
 
+def _simple_assigns(st):
+    """(target, value) pairs of an assignment statement; `a, b = x, y` counts as two"""
+    if not isinstance(st, ast.Assign):
+        return []
+    out = []
+    for t in st.targets:
+        if isinstance(t, (ast.Tuple, ast.List)) and isinstance(st.value, (ast.Tuple, ast.List)) and len(t.elts) == len(st.value.elts):
+            out += list(zip(t.elts, st.value.elts))
+        else:
+            out.append((t, st.value))
+    return out
+
+
 def _blocks(node):
     for n in ast.walk(node):
         for fld in ("body", "orelse", "finalbody"):
@@ -50,16 +63,36 @@ def paired_update_rule(ctx, rule: str, f, A: str, B: str, X: str, Y: str, fn_par
     node = f.node
     tag = f.name
     nblocks = 0
+    # the source pair and the function parameter are local names, not anchors: infer them from the stores into A and B
+    def _sources(target):
+        names = set()
+        for st in ast.walk(node):
+            for tg, vl in _simple_assigns(st):
+                if _elem(tg, target) is not None and isinstance(vl, ast.Subscript) and isinstance(vl.value, ast.Name):
+                    names.add(vl.value.id)
+        return names
+    sx, sy = _sources(A), _sources(B)
+    if len(sx) == 1:
+        X = next(iter(sx))
+    if len(sy) == 1:
+        Y = next(iter(sy))
+    for st in ast.walk(node):
+        if isinstance(st, ast.Assign) and len(st.targets) == 1 and isinstance(st.targets[0], ast.Name) and st.targets[0].id == B \
+                and isinstance(st.value, ast.List) and st.value.elts and all(
+                    isinstance(e, ast.Call) and isinstance(e.func, ast.Name) for e in st.value.elts):
+            fns = {e.func.id for e in st.value.elts}
+            if len(fns) == 1:
+                fn_param = next(iter(fns))
     for blk, label in _blocks(node):
         a_st: Dict[int, ast.AST] = {}
         b_st: Dict[int, ast.AST] = {}
         for st in blk:
-            if isinstance(st, ast.Assign) and len(st.targets) == 1:
-                ia, ib = _elem(st.targets[0], A), _elem(st.targets[0], B)
+            for tg, vl in _simple_assigns(st):
+                ia, ib = _elem(tg, A), _elem(tg, B)
                 if ia is not None:
-                    a_st[ia] = st
+                    a_st[ia] = ast.copy_location(ast.Assign(targets=[tg], value=vl), st)
                 if ib is not None:
-                    b_st[ib] = st
+                    b_st[ib] = ast.copy_location(ast.Assign(targets=[tg], value=vl), st)
         if not a_st and not b_st:
             continue
         nblocks += 1
@@ -115,7 +148,7 @@ def paired_update_rule(ctx, rule: str, f, A: str, B: str, X: str, Y: str, fn_par
 
         def writes_X(st):
             if isinstance(st, (ast.Assign, ast.AugAssign)):
-                tg = st.targets if isinstance(st, ast.Assign) else [st.target]
+                tg = [t for t, _ in _simple_assigns(st)] if isinstance(st, ast.Assign) else [st.target]
                 for t in tg:
                     if isinstance(t, ast.Subscript) and isinstance(t.value, ast.Name) and t.value.id == X:
                         return True
@@ -126,8 +159,7 @@ def paired_update_rule(ctx, rule: str, f, A: str, B: str, X: str, Y: str, fn_par
                 return True
             return False
         muts = [st for st in cfg.stmts if writes_X(st)]
-        users = [st for st in cfg.stmts if isinstance(st, ast.Assign) and len(st.targets) == 1 and _elem(st.targets[0], B) is not None
-                 and _elem(st.value, Y) == k]
+        users = [st for st in cfg.stmts if any(_elem(tg, B) is not None and _elem(vl, Y) == k for tg, vl in _simple_assigns(st))]
         stale = []
         for u in users:
             if not cfg.dominates(ev, u):
